@@ -1,10 +1,11 @@
 """C04: TOAST tiles partition the sphere, nest exactly, and are route-independent."""
 import collections
+import json
 import random
 
 import numpy as np
 
-from vlib import coherence
+from vlib import coherence, gens
 from vlib import ref_quadtree as rq
 from vlib import ref_toast as rt
 
@@ -26,6 +27,8 @@ RULE = (
     'ed through every route and after library tile filters were asked about them; enumerations advanced in lockstep / started and dropp'
     "ed inside another's loop (bounded) must equal solo enumerations. Route cases also look up a corner and an edge midpoint of every t"
     'ile.'
+    " 'pyramid' cases: the Tile objects that a Pyramid (whole / filtered / restricted to a sub-pyramid, either coordinate system, 1-3 "
+    "workers) hands to visit_leaves callbacks carry the reference corners and orientation of their position."
 )
 ASSUMPTIONS = ["reference TOAST subdivision (vlib/ref_toast.py) follows the documentation", "compiled extension as built; .pyx coherent with .c"]
 EXHAUSTIVE = {"quick": "all 1364 tiles to depth 5 in both coordinate systems", "thorough": "all 87380 tiles to depth 8 in both coordinate systems"}
@@ -47,6 +50,11 @@ def cases(tier, seed):
             out.append(dict(t="routes", cs=cs, positions=allp[i:i + 341], seed=R.randrange(1 << 30)))
         for i in range(2 if tier == "quick" else 12):
             out.append(dict(t="live", cs=cs, depth=R.choice([2, 3]) if tier == "quick" else R.choice([2, 3, 4]), seed=R.randrange(1 << 30)))
+        # the route by which tiles reach every sampler and tiler: the Tile objects a Pyramid hands to visit_leaves callbacks
+        for i in range(14 if tier == "quick" else 150):
+            ps = gens.gen_pyramid(R, maxdepth=4 if tier == "quick" else 5, mindepth=1, kinds=("toast", "toast", "filtered", "bbox"), sub_p=0.7)
+            ps.update(t="pyramid", cs=cs, coordsys=cs, seed=R.randrange(1 << 30), par=R.choice([1, 1, 2, 3]))
+            out.append(ps)
         nd = 2000 if tier == "quick" else 50000
         for i in range(0, nd, 500):
             out.append(dict(t="deep", cs=cs, n=500, seed=R.randrange(1 << 30)))
@@ -423,12 +431,57 @@ def case_deep(spec):
     return r
 
 
+def case_pyramid(spec, workdir):
+    """Tiles as a Pyramid object (whole / filtered / restricted to a sub-pyramid; either coordinate system) hands them to the
+    callbacks of visit_leaves, serially or through worker processes: same corners and orientation as the reference."""
+    import os
+
+    pl = spec["cs"] == "planetary"
+    pyr = gens.build_pyramid(spec)
+    out = os.path.join(workdir, "tiles.jsonl")
+    fd = os.open(out, os.O_WRONLY | os.O_CREAT | os.O_APPEND)
+
+    def cb(pos, tile):
+        rec = dict(pos=[int(v) for v in pos], tpos=[int(v) for v in tile.pos], c=np.array(tile.corners, dtype=float).tolist(), inc=bool(tile.increasing))
+        os.write(fd, (json.dumps(rec) + "\n").encode())
+
+    pyr.visit_leaves(cb, parallel=spec["par"])
+    os.close(fd)
+    probs = []
+    n = 0
+    seen = set()
+    for line in open(out):
+        rec = json.loads(line)
+        p = tuple(rec["pos"])
+        seen.add(p)
+        if tuple(rec["tpos"]) != p:
+            probs.append("leaf %s delivered with a tile whose pos is %s" % (p, tuple(rec["tpos"])))
+        if p[0] == 0:
+            continue
+        rc, rinc = rt.tile_corners(p, pl)
+        d = np.abs(rt.corners_to_xyz(rec["c"]) - np.array(rc)).max()
+        n += 1
+        if d > TOL:
+            probs.append("Pyramid(%s%s).visit_leaves(parallel=%d) delivered tile %s with corners %.3g away from the %s reference" % (
+                spec["kind"], ", apex %s" % (tuple(spec["apex"]),) if spec.get("apex") else "", spec["par"], p, d, spec["cs"]))
+        if rec["inc"] != bool(rinc):
+            probs.append("tile %s delivered with increasing=%s, reference %s" % (p, rec["inc"], rinc))
+        if len(probs) > 8:
+            break
+    r = dict(counters=dict(pyramid_route_tiles=n, pyramid_cases=1, **{"pyramid_apex" if spec.get("apex") else "pyramid_whole": 1}), nontrivial=n > 0)
+    if probs:
+        r.update(status="violation", key="toast-pyramid-route:" + spec["cs"], detail="; ".join(probs[:6]))
+    return r
+
+
 def run_case(spec, workdir):
+    if spec["t"] == "pyramid":
+        return case_pyramid(spec, workdir)
     return dict(enum=case_enum, routes=case_routes, deep=case_deep, live=case_live)[spec["t"]](spec)
 
 
 def finish(agg, tier):
     c = agg["counters"]
-    if c.get("tiles_compared", 0) < 2000 or c.get("route_comparisons", 0) < 2000 or c.get("deep_route_comparisons", 0) < 1000:
+    if c.get("tiles_compared", 0) < 2000 or c.get("route_comparisons", 0) < 2000 or c.get("deep_route_comparisons", 0) < 1000 or c.get("pyramid_route_tiles", 0) < 100 or not c.get("pyramid_apex"):
         return dict(inconclusive="monitors not sufficiently reached: %s" % c)
     return {}
